@@ -15,7 +15,7 @@ import (
 func init() { register("C17", "exploration", runC17) }
 
 func runC17(c *Check, rng *rand.Rand) {
-	c.Rule = "every command name of docs/command.md (Yes and No rows) + random names x random letter case x argument counts 0..6 (7..40 for variadic), each followed by a sentinel request; request sizes limit-1, limit, limit+1 alone and inside pipelines whose total exceeds the limit while every member is below it, for limits 64, 4096 and the default; backend replies of size limit-1, limit, limit+1 (single-key and merged MGET); oracle: served iff (name in documented set + AUTH) and arity rule and own encoded size <= limit; distinct = (name, argc, verdict) / (limit, size case)"
+	c.Rule = "every command name of docs/command.md (Yes and No rows) + random names x random letter case x argument counts 0..6 (7..40 for variadic; valid count + 256, + 512 and sometimes + 65536 for every documented command), each followed by a sentinel request; request sizes limit-1, limit, limit+1 alone and inside pipelines whose total exceeds the limit while every member is below it, for limits 64, 4096 and the default; backend replies of size limit-1, limit, limit+1 (single-key and merged MGET); oracle: served iff (name in documented set + AUTH) and arity rule and own encoded size <= limit; distinct = (name, argc, verdict) / (limit, size case)"
 	c.Assumptions = []string{
 		"supported set = 'Yes' rows parsed from /repo/docs/command.md at run time + AUTH; it must equal the frozen table in /verif/harness/lib/cmdtab.go, whose arity classes transcribe the documented rule classes",
 		"'served' for AUTH is judged on a proxy configured with a password (AUTH <password> -> +OK)",
@@ -106,6 +106,15 @@ func c17sweep(c *Check, rng *rand.Rand, yes, no []string) {
 		argcs := []int{0, 1, 2, 3, 4, 5, 6}
 		if known && (ci.Arity == ArInf || ci.Arity == ArEven || ci.Arity == ArEval) {
 			argcs = append(argcs, 7, 8, 9+rng.Intn(10), 20+rng.Intn(21))
+		}
+		if known {
+			// counts that equal a valid one modulo 256 (and, now and then, modulo 65536):
+			// an argument count kept in a narrow integer would accept them
+			base := MinimalArgs(ci.Arity)
+			argcs = append(argcs, base+256, base+512)
+			if rng.Intn(12) == 0 {
+				argcs = append(argcs, base+65536)
+			}
 		}
 		for _, ac := range argcs {
 			tok := newToken("a")
